@@ -65,7 +65,7 @@ func genC03(t *rapid.T) c03Case {
 		g.budget = 3
 		var body *m.F
 		if rapid.IntRange(0, 3).Draw(t, "small") == 0 {
-			body = g.formula(0)
+			body = g.bounded(40)
 		} else {
 			body = m.AtomF(g.newAtom())
 		}
